@@ -163,11 +163,37 @@ func (s ShadowSub) CallClosure(ctx context.Context, x int) (int, error) {
 	return x, nil
 }
 
+// a root that embeds a mutex (promoted methods without a context parameter) and holds a service behind an
+// unexported interface-typed field: none of that is callable by a peer
+type journal struct{ ID string }
+
+func (j journal) Flush(ctx context.Context) error { zooHit(j.ID, "Flush"); return nil }
+
+type auditor interface {
+	Note(ctx context.Context) error
+}
+type auditImpl struct {
+	ID      string
+	Journal journal
+}
+
+func (a *auditImpl) Note(ctx context.Context) error { zooHit(a.ID, "Note"); return nil }
+
+type Guarded struct {
+	sync.Mutex
+	ID    string
+	audit auditor
+	Pub   auditor
+}
+
+func (g *Guarded) Status(ctx context.Context) (int, error) { zooHit(g.ID, "Status"); return 5, nil }
+
 // Expected: path -> "instance.method/argc" (argc = parameters without the context)
 type ZooRoot struct {
 	Name     string
 	Value    any
 	Callable map[string]string
+	Extra    []string // further names to try against this root (paths reflection-based enumeration does not produce)
 }
 
 func midCallable(prefix, id string, addressable bool) map[string]string {
@@ -242,6 +268,10 @@ func ZooRoots() []ZooRoot {
 		{Name: "counter-root", Value: Counter(7), Callable: map[string]string{"Inc": "counter7.Inc/0"}},
 		{Name: "shadow-root", Value: &Shadow{ID: "shadow", Sub: ShadowSub{ID: "shadow.sub"}}, Callable: map[string]string{
 			"CallClosure": "shadow.CallClosure/2", "Get": "shadow.Get/0", "Sub.CallClosure": "shadow.sub.CallClosure/1"}},
+		{Name: "guarded-root", Value: &Guarded{ID: "guarded", audit: &auditImpl{ID: "audit", Journal: journal{ID: "journal"}}, Pub: &auditImpl{ID: "pubaudit", Journal: journal{ID: "pubjournal"}}},
+			Callable: map[string]string{"Status": "guarded.Status/0", "Pub.Note": "pubaudit.Note/0"},
+			Extra: []string{"audit.Note", "audit.Journal.Flush", "audit.Journal", "Pub.Journal.Flush", "Mutex.Lock", "Lock", "Unlock", "TryLock", "Mutex.Unlock",
+				"audit.Journal.Flush.X", "Pub.Journal.ID"}},
 	}
 }
 
